@@ -17,6 +17,10 @@ HDrop(h, r, b) == h \ {<<b, r>>}
 \* sync.Pool.Put
 PPut(p, b)     == p \cup {b}
 
+\* the same for a pool kept as a bag [object -> number of times it is in the pool]
+BGet(p, b)     == [p EXCEPT ![b] = @ - 1]
+BPut(p, b)     == [p EXCEPT ![b] = @ + 1]
+
 GetLegal(h, r, b) == HoldersOf(h, b) = {}        \* nobody holds what the pool hands out
 UseLegal(h, r, b) == HoldersOf(h, b) = {r}       \* only its single holder touches a buffer
 Holds(h, r) == \E x \in h : x[2] = r
@@ -25,4 +29,5 @@ Holds(h, r) == \E x \in h : x[2] = r
 Exclusive(h) == \A x, y \in h : x[1] = y[1] => x = y
 \* a pooled object is not held by anybody (Put happens after the last use)
 PooledUnheld(h, p) == \A x \in h : x[1] \notin p
+BagUnheld(h, p) == \A x \in h : p[x[1]] = 0
 =============================================================================
